@@ -343,7 +343,7 @@ type GenOpt struct {
 	AllowKnown bool
 }
 
-var mainTypes = []string{"Ints", "Scalars", "Nulls", "Sers", "Embs", "Defs", "Comp", "Keyed", "StrKey", "UnixU", "Twice", "Loc", "Loc", "Uid", "PTimes", "PTimes", "Modeled", "Modeled", "Defs2", "Defs2", "SDef", "SDef", "CDef", "PEmb", "PEmb", "PEmb", "NumSer", "NumSer", "Customs", "Customs", "Customs"}
+var mainTypes = []string{"Shadow", "Shadow", "Shadow2", "Shadow2", "Ints", "Scalars", "Nulls", "Sers", "Embs", "Defs", "Comp", "Keyed", "StrKey", "UnixU", "Twice", "Loc", "Loc", "Uid", "PTimes", "PTimes", "Modeled", "Modeled", "Defs2", "Defs2", "SDef", "SDef", "CDef", "PEmb", "PEmb", "PEmb", "NumSer", "NumSer", "Customs", "Customs", "Customs"}
 var mapTypes = []string{"Ints", "Scalars", "Keyed", "Comp", "Embs", "Twice", "Loc", "Uid"}
 
 func genInput(r *lib.Rng, id int, g GenOpt) Input {
@@ -352,6 +352,12 @@ func genInput(r *lib.Rng, id int, g GenOpt) Input {
 	}
 	curNaming = g.Naming
 	d := descOf(g.Type)
+	if caseClash(d) {
+		// SQLite column names are case-insensitive (environment): a naming strategy under which two
+		// columns of the model differ only by case is not usable with this model type
+		g.Naming, curNaming = "", ""
+		d = descOf(g.Type)
+	}
 	in := Input{Type: g.Type, Spec: g.Spec, Naming: g.Naming, QF: g.QF, CBS: g.CBS, Fwd: g.Fwd, NoRet: g.NoRet, Op: g.Op, Pre: lib.Pick(r, []int{0, 0, 3, 8})}
 	if g.Op == "batches" {
 		in.BS = r.Range(1, 4)
@@ -468,6 +474,18 @@ func genInput(r *lib.Rng, id int, g GenOpt) Input {
 		in.XRecs = append(in.XRecs, x)
 	}
 	return in
+}
+
+func caseClash(d *Desc) bool {
+	seen := map[string]bool{}
+	for _, f := range d.Fields {
+		l := strings.ToLower(f.Col)
+		if seen[l] {
+			return true
+		}
+		seen[l] = true
+	}
+	return false
 }
 
 func zeroVal(k Kind) Val {
@@ -605,6 +623,11 @@ func shape(in Input) string {
 		tn = "gen"
 		for _, g := range in.Spec {
 			tn += "," + g.Go + ":" + g.Tag
+			if g.Anon {
+				tn += ":anon"
+			} else if g.Name[0] != 'F' {
+				tn += ":" + g.Name
+			}
 		}
 	}
 	fmt.Fprintf(&sb, "%s|%s|fwd%v|qf%v|cbs%d|noret=%v|%s%d|pre%d|n%d|%s|", tn, in.Naming, in.Fwd, in.QF, in.CBS, in.NoRet, in.Op, in.BS, in.Pre, len(in.Recs), in.MapKeys)
